@@ -345,15 +345,17 @@ package backend
 //@ ghost rdAlive bool
 //@ ghost rdAllowed bool
 //@ ghost rdAsked bool
+//@ ghost rdProbed bool
 
 // a replica without fuse policy: down after the no-alive period or on replication trouble, up again after a passed probe
 //@ func (*Slice).checkWithNoRecovery
 //@   requires s != nil && node != nil && s.Master != nil && (len(s.Master.Nodes) > 0 ==> s.Master.Nodes[0] != nil) && -(1<<40) <= lastChecked && lastChecked <= 1<<40
-//@   ghost-update at entry: rdConn = false, rdShould = false, rdMasterDown = false, rdAlive = true
-//@   ghost-update after call GetPooledConnectWithHealthCheck#0: rdConn = ret0 != nil
+//@   ghost-update at entry: rdProbed = false, rdConn = false, rdShould = false, rdMasterDown = false, rdAlive = true
+//@   ghost-update after call GetPooledConnectWithHealthCheck#0: rdConn = ret0 != nil, rdProbed = true
 //@   ghost-update after call ShouldDownAfterNoAlive#0: rdShould = ret0
 //@   ghost-update after call GetMasterStatus#0: rdMasterDown = (ret1 != nil || ret0 == StatusDown)
 //@   ghost-update after call checkSlaveSyncStatus#0: rdAlive = ret0
+//@   assert at call ShouldDownAfterNoAlive#0: rdProbed
 //@   assert at call ShouldDownAfterNoAlive#0: arg1 == downAfterNoAlive
 //@   assert at call checkSlaveSyncStatus#0: arg1 == secondBehindMaster
 //@   ensures case noAlive:    rdShould ==> node.Status == StatusDown
@@ -367,13 +369,14 @@ package backend
 //@ func (*Slice).checkWithHardRecovery
 //@   requires s != nil && node != nil && strategy != nil && s.Master != nil && (len(s.Master.Nodes) > 0 ==> s.Master.Nodes[0] != nil) && -(1<<40) <= lastChecked && lastChecked <= 1<<40
 //@   requires -(1<<40) <= strategy.coolingPeriod && strategy.coolingPeriod <= 1<<40 && -(1<<40) <= strategy.lastFuseTime.int64 && strategy.lastFuseTime.int64 <= 1<<40
-//@   ghost-update at entry: rdConn = false, rdShould = false, rdMasterDown = false, rdAlive = true, rdAllowed = false, rdAsked = false
-//@   ghost-update after call GetPooledConnectWithHealthCheck#0: rdConn = ret0 != nil
+//@   ghost-update at entry: rdProbed = false, rdConn = false, rdShould = false, rdMasterDown = false, rdAlive = true, rdAllowed = false, rdAsked = false
+//@   ghost-update after call GetPooledConnectWithHealthCheck#0: rdConn = ret0 != nil, rdProbed = true
 //@   ghost-update after call ShouldDownAfterNoAlive#0: rdShould = ret0
 //@   ghost-update after call GetMasterStatus#0: rdMasterDown = (ret1 != nil || ret0 == StatusDown)
 //@   ghost-update after call checkSlaveSyncStatus#0: rdAlive = ret0
 //@   ghost-update after call AllowRecovery#0: rdAllowed = ret0, rdAsked = true
 //@   ghost-update after call AllowRecovery#1: rdAllowed = ret0, rdAsked = true
+//@   assert at call ShouldDownAfterNoAlive#0: rdProbed
 //@   assert at call ShouldDownAfterNoAlive#0: arg1 == downAfterNoAlive
 //@   assert at call checkSlaveSyncStatus#0: arg1 == secondBehindMaster
 //@   ensures case noAlive:     rdShould ==> node.Status == StatusDown
@@ -389,12 +392,13 @@ package backend
 //@ func (*Slice).checkWithGradualRecovery
 //@   requires s != nil && node != nil && strategy != nil && s.Master != nil && (len(s.Master.Nodes) > 0 ==> s.Master.Nodes[0] != nil) && -(1<<40) <= lastChecked && lastChecked <= 1<<40
 //@   requires 0 <= strategy.errorRecoveryCount.int64 && strategy.errorRecoveryCount.int64 <= 1<<20 && strategy.consecutiveSuccessCheckCount.int64 <= 1<<40
-//@   ghost-update at entry: rdConn = false, rdShould = false, rdMasterDown = false, rdAlive = true, rdAllowed = false, rdAsked = false
-//@   ghost-update after call GetPooledConnectWithHealthCheck#0: rdConn = ret0 != nil
+//@   ghost-update at entry: rdProbed = false, rdConn = false, rdShould = false, rdMasterDown = false, rdAlive = true, rdAllowed = false, rdAsked = false
+//@   ghost-update after call GetPooledConnectWithHealthCheck#0: rdConn = ret0 != nil, rdProbed = true
 //@   ghost-update after call ShouldDownAfterNoAlive#0: rdShould = ret0
 //@   ghost-update after call GetMasterStatus#0: rdMasterDown = (ret1 != nil || ret0 == StatusDown)
 //@   ghost-update after call checkSlaveSyncStatus#0: rdAlive = ret0
 //@   ghost-update after call AllowRecovery#0: rdAllowed = ret0, rdAsked = true
+//@   assert at call ShouldDownAfterNoAlive#0: rdProbed
 //@   assert at call ShouldDownAfterNoAlive#0: arg1 == downAfterNoAlive
 //@   assert at call checkSlaveSyncStatus#0: arg1 == secondBehindMaster
 //@   ensures case noAlive:     rdShould ==> node.Status == StatusDown
